@@ -256,9 +256,17 @@ def run_scripts(cases):
            expReq=path["req"], expOwn=path["own"], expSrv=path["srv"])
         return {"estab": estab, "ev": evs, "idshape": idshape, "exit": exit_path}
 
-    async def main():
-        for path, seed in cases:
-            out.append(await one(path, seed))
+    for path, seed in cases:
+        box = []
 
-    vloop.run(main)
+        async def main(path=path, seed=seed, box=box):
+            box.append(await one(path, seed))
+
+        try:
+            vloop.run(main)
+            out.append(box[0])
+        except vloop.Deadlock:
+            # nothing can ever happen again: leaving the context (or entering it) hangs
+            out.append({"estab": path["estab"], "idshape": "n/a", "exit": "hung",
+                        "ev": [{"e": "End", "t": 0, "read": [], "tasks": 99, "clients": False, "streams": False, "expReq": path["req"], "expOwn": path["own"], "expSrv": path["srv"], "hung": True}]})
     return out
